@@ -321,13 +321,24 @@ func stdBody(f RpFrame) []byte {
 	return general(0)
 }
 
+// reply id of a command of (5c) (all of them reply-bearing in DESIGN B.6)
+func stdReply0(cmd uint16) uint16 {
+	if cmd == 0x0100 {
+		return 0x8100
+	}
+	return 0x8001
+}
+
 func main() { Main("C20", c20) }
 
 func c20(c *Ctx) {
 	c.Rule = "every (version 2011/2013/2019, supported command) pair x phones of every length 1..12 (1..20 for 2019): random digits, all zeros, leading zeros, all nines, phones solved so that the template checksum is 0x7e / 0x7d; default and custom bodies (empty, 1023 bytes, 0x7e/0x7d runs); sequences of frames of one Terminal incl. 70 000 consecutive frames for the serial wrap; unsupported commands; ExpectedReply for every reply-bearing command with platform serials 0/65535/random, compared with the model and with the frames a live service.GoJT808 (loopback TCP) sends for the same frames. A case is non-trivial when a frame / reply is produced; distinct = distinct request text"
 	g := &gen{rng: c.Rng}
 	quick := c.Quick()
+	sigCount := map[string]int{} // true number per signature (the evidence keeps at most 12 records of each)
+	defer func() { c.Extra["violations_by_signature"] = sigCount }()
 	viol := func(sig, what, input, obs, want string) {
+		sigCount["C20/"+sig]++
 		c.Violate(Violation{Signature: "C20/" + sig, What: what, Input: input, Observed: Trunc(obs, 600), Required: Trunc(want, 600)})
 	}
 
@@ -766,7 +777,14 @@ func c20(c *Ctx) {
 			if fres.Timeout != "" || len(fres.Frames) != 2 {
 				viol("live-count", "the live server answered a lone packet of a sub-packaged message (or not the heartbeat before it)", freq,
 					fmt.Sprintf("%d frames timeout=%s", len(fres.Frames), fres.Timeout), "2 frames (heartbeat reply, barrier reply)")
-			} else if fans != "ok r=nil" {
+			} else if fans == "ok r=nil" {
+				c.Count("fragment frame: nothing predicted")
+			} else if d, ok := RpDecode(Unhx(strings.TrimPrefix(fans, "ok r="))); !strings.HasPrefix(fans, "ok r=") || strings.Contains(fans, ",") || !ok ||
+				d.ID != stdReply0(cmd) || d.Serial != 0 || d.Ver != pk.Ver || !bytes.Equal(d.BCD, pk.BCD) || d.Frag || !bytes.Equal(d.Body, stdBody(pk)) {
+				// not the finding's shape (the reply the packet ALONE would get): an error answer or a wrong prediction
+				viol("expected-reply", "ExpectedReply for a frame with the fragment bit is neither nil nor the reply built from the packet alone", freq, fans,
+					"ok r=nil, or (known finding) the 0x8001 / 0x8100 the packet alone would get")
+			} else {
 				viol("expected-reply-fragment", "ExpectedReply predicts a reply for a frame with the fragment bit that is not the whole message; the server answers nothing until the transfer is complete",
 					freq, fans, "ok r=nil (nothing is sent for it)")
 			}
